@@ -100,6 +100,7 @@ class SystemComponent(BaseComponent):
             )
 
         else:
+            error_state.cancel()
             output_changes, call_in = on_tick.result()
             if len(self.scheduler.interrupts) > 0:
                 # an inner component raised an interrupt while this tick was running:
